@@ -62,6 +62,7 @@ def main():
     try:
         mod = importlib.import_module("qco.checks." + pid.lower())
         if ctx.impl_ok:
+            ctx.replay_known()
             mod.run(ctx)
     except Exception:
         ctx.tie_break("check-crashed", traceback.format_exc()[-1500:])
